@@ -327,3 +327,44 @@ def state_gates(body, site_bb, fields):
         if can and len(can) < len(sc[sb]):
             out += [(sb, y) for y in can]
     return out
+
+
+def value_root(b, l):
+    """follow plain copies, (re)borrows and the one-element tuples format_args! builds, to the local whose value is meant"""
+    for _ in range(12):
+        d = b.single_def(l) if l is not None else None
+        if not (d and d[2] == "assign"):
+            break
+        rv2 = d[3]
+        if rv2["k"] in ("use", "cast"):
+            pl = op_place(rv2["a"])
+            if isinstance(pl, int):
+                l = pl
+                continue
+            if isinstance(pl, dict) and len(pl["p"]) == 1 and pl["p"][0].startswith("t|"):
+                dd = b.single_def(pl["l"])
+                if dd and dd[2] == "assign" and dd[3]["k"] == "agg" and dd[3].get("ak") == "tuple":
+                    l = op_local(dd[3]["ops"][int(pl["p"][0][2:])])
+                    continue
+            break
+        if rv2["k"] in ("ref", "raw"):
+            pl = rv2["pl"]
+            if isinstance(pl, int):
+                l = pl
+                continue
+            if pl["p"] == ["*"]:
+                l = pl["l"]
+                continue
+        break
+    return l
+
+
+def rendered_values(b, op):
+    """locals whose value is formatted into the text that operand `op` carries (arguments of fmt::rt::Argument::new_*)"""
+    sl = guards.slice_of_operand(b, op)
+    out = set()
+    for x, tt in b.calls():
+        if "fmt::rt::Argument" in callee_of(tt) and isinstance(tt.get("dest"), int) and tt["dest"] in sl["locals"] and tt["args"]:
+            out.add(value_root(b, op_local(tt["args"][0])))
+    out.discard(None)
+    return out
